@@ -37,7 +37,7 @@ CHECKS = {
     "C10": _c("Generated-input search against a grammar-derived recogniser: grammatical texts, all kinds of single-token mutants, "
               "truncations, token soups and raw strings; verdict, exception type and reported position are checked against the first "
               "non-viable token computed by an Earley recogniser built from blackbird.g4 at run time.", "C10",
-              "grammar-based fuzzing / property-based testing (Hypothesis) with an Earley reference recogniser as oracle"),
+              "grammar-based fuzzing / property-based testing (Hypothesis; atheris campaigns in the thorough tier) with an Earley reference recogniser as oracle"),
     "C07": _c("Generated-input search against a reference inliner: generated directory trees of include files (arbitrary mode numbers, "
               "templates, nesting, repeated includes, relative/absolute paths, varying process working directories with decoy files) are "
               "loaded with blackbird.load and compared with the recursive expansion computed on the model.", "C07",
